@@ -434,6 +434,7 @@ def run_lines(exe, text, timeout=600, env=None):
     e = dict(os.environ)
     e.setdefault("ASAN_OPTIONS", "detect_leaks=0:abort_on_error=0:allocator_may_return_null=1")
     e.setdefault("UBSAN_OPTIONS", "print_stacktrace=1:halt_on_error=1")
+    e.setdefault("G_SLICE", "always-malloc")      # GLib 2.74 slices would hide use-after-free / overruns of g_slice objects from ASan
     if env:
         e.update(env)
     try:
